@@ -13,7 +13,8 @@ EXPLANATION = (
     'nullable bodies; partial operations: every constant-index subscript on the formatting path is dominated by a non-emptiness '
     'fact (truthiness / len / successful match, on all paths or earlier in the same expression), comes from str.split(sep), a fixed '
     'tuple, a try catching IndexError, or a frozen reasoned exemption; (P4) empty code lines are emitted under the right-stripped '
-    'prefix; (L5) no placeholder survives the splitter; (P6) rendered blocks are newline-terminated; the length assertion of the '
+    'prefix; (L5) no placeholder survives the splitter; (P6) rendered blocks are newline-terminated and every return of fill_markdown '
+    'ends with the renderer\'s output (early exits included); the length assertion of the '
     'cross-inline rewrite is discharged by the shape of the quote substitution (C08). Not decided: wall-clock behaviour, polynomial '
     'regex cost, crashes or hangs inside marko (its footnote parser hangs on `[^1]:  \\t x` - dependency defect).'
 )
@@ -26,6 +27,7 @@ def run(ctx: Ctx) -> None:
     ctx.rule('R-TERM-index', 'constant-index subscripts are guarded by a non-emptiness fact')
     ctx.rule('R-TERM-none', 'values marko may return as None are tested before use')
     ctx.rule('R-TERM-T3dep', 'thorough: marko\'s literal regex patterns have no exponential-backtracking shape')
+    ctx.rule('R-TERM-newline', 'every return of fill_markdown ends with the renderer output; reformat_text passes it on')
     ctx.rule('R-PREFIX-P4', 'empty code lines carry no trailing spaces')
     ctx.rule('R-PREFIX-P6', 'rendered blocks are newline-terminated')
     ctx.rule('R-LOSSLESS-L5', 'no placeholder survives the word splitter')
@@ -35,6 +37,7 @@ def run(ctx: Ctx) -> None:
     ctx.run(term.check_regexes)
     ctx.run(term.check_subscripts)
     ctx.run(term.check_optional_results)
+    ctx.run(term.check_result_newline)
     ctx.run(render.check_blank_line_hygiene)
     ctx.run(render.check_prefix, {"P6"})
     ctx.run(wrap.check_placeholders)
